@@ -10,14 +10,15 @@ import itertools
 
 ID = "C09"
 MODULE = "PotasscoVerif.Props.C09"
+EXTRA_MODULES = ["PotasscoVerif.Props.C09l"]
 THEOREMS = ["PotasscoVerif.C09.C09_simulation", "PotasscoVerif.C09.C09_transparent",
             "PotasscoVerif.C09.C09_buffer_independent", "PotasscoVerif.C09.C09_transparent_adaptive",
             "PotasscoVerif.C09.C09_memsafe", "PotasscoVerif.C09.C09_refill_progress",
             "PotasscoVerif.C09.C09_current_buffer", "PotasscoVerif.C09.C09_needs_two",
-            "PotasscoVerif.BufferedStream.satVal_exact"]
+            "PotasscoVerif.BufferedStream.satVal_exact", "PotasscoVerif.C09.C09_line_number"]
 PARTIAL = {}
 TECHNIQUE = "Lean 4 refinement proof (window model of BufferedStream simulates an abstract character stream, for every BUF_SIZE >= 2) + differential correspondence run of model vs. real code"
-LEVEL_TEXT = ("Theorems C09_simulation/transparent/transparent_adaptive/memsafe/refill_progress: for every BUF_SIZE >= 2, every NUL-free input and "
+LEVEL_TEXT = ("Theorems C09_simulation/transparent/transparent_adaptive/memsafe/refill_progress/line_number: for every BUF_SIZE >= 2, every NUL-free input and "
               "every finite or adaptive sequence of admissible operations the buffer model returns exactly the observations of the abstract character stream "
               "(CR/CRLF folding, failed match consumes nothing, copy = exactly the requested bytes or all that remain, line = 1 + newlines extracted), never "
               "indexes past the sentinel, and a refill always makes progress; satVal_exact: the digit loop returns the exact value or INT64_MAX. "
@@ -92,6 +93,10 @@ def gen_history(rng, B, malformed=False):
         elif r < 0.19: ops.append("m:" + hexs(rng.choice(WORDS)[:max(1, min(B, 3))])); extracted = False
         elif r < 0.21 and malformed:
             ops.append(rng.choice(["u:97", "u:0", "u:10", "m:" + hexs(b"q" * (B + 1)) if B < 100 else "e"]))
+        elif r < 0.24 and malformed:
+            # a put-back that may be refused (after a failed long match the window starts at the read position): line and next char are observed around it
+            if B < 100 and rng.random() < 0.5: ops.append("m:" + hexs(b"q" * rng.choice([B - 1, B])))
+            ops += ["l", "p", "u:%d" % rng.choice([10, 10, 97]), "l"]
     # run past the end
     tail = rng.choice([[], ["g"], ["c:%d" % rng.choice([1, 5, B, 2 * B + 1])], ["i"], ["w", "e"], ["g", "g", "e", "l"]])
     ops += tail
@@ -169,6 +174,14 @@ def evaluate(ctx, cases):
             if adm and i != sobs:
                 ctx.fail("C09:transparency", "the buffered stream shows a client something else than the characters of the underlying stream",
                          c, {"impl": i, "spec": sobs})
+            # a refused put-back (unget returns false) changes nothing: the line number reported before and after it is the same (C09-n)
+            toks = i.split(" ")
+            if len(toks) == len(c["ops"]):
+                for k in range(2, len(toks) - 1):
+                    if c["ops"][k].startswith("u:") and toks[k] == "b0" and c["ops"][k - 2] == "l" and c["ops"][k + 1] == "l":
+                        ctx.dist["refused put-back observed"] += 1
+                        if toks[k - 2] != toks[k + 1]:
+                            ctx.fail("C09:refused-unget-moves-line", "an unget that was refused changed the line number", c, {"op": k, "before": toks[k - 2], "after": toks[k + 1]}); break
             ctx.compared += 1
             if i != m:
                 ctx.disagree("BufferedStream:observations", c, i, m)
